@@ -88,8 +88,13 @@ pub fn run_one(out: &mut Out, sc: usize, s: &J) {
                     let w = csl::make_icarus_bootstrap_witness(&csl::TransactionHash::from_bytes(h.clone())?, &addr, &k); let pk = w.vkey().public_key();
                     Ok((pk.as_bytes(), w.signature().to_bytes(), w.chain_code(), pk.verify(&h, &w.signature()), pk.verify(&h2, &w.signature()))) })
                 .to_json(|(vk, sg, cc, v1, v2)| obj(vec![("vkey", jbytes(&vk)), ("sig", jbytes(&sg)), ("cc", jbytes(&cc)), ("verifies", json!(v1)), ("verifies_other_hash", json!(v2))])) }
+            // "mutate": the legacy key is taken from the bytes of key a with one byte changed - a legacy Daedalus key is any 96 bytes, it need
+            // not carry the bit pattern of a BIP32-Ed25519 key (the address only supplies the attributes of the witness)
             ("daedalus", Val::Xprv(k)) => { let h = get_bytes(&op["h"]); let mut h2 = h.clone(); h2[5] ^= 4;
-                call(|| -> Result<_, csl::JsError> { let k = xprv(k); let lk = csl::LegacyDaedalusPrivateKey::from_bytes(&k.as_bytes())?; let addr = csl::ByronAddress::icarus_from_key(&k.to_public(), 764824073);
+                let mut kb = k.clone();
+                if let Some(mu) = op.get("mutate") { let i = mu["byte"].as_u64().unwrap_or(0) as usize; if i < kb.len() { kb[i] ^= mu["xor"].as_u64().unwrap_or(0) as u8; } }
+                ev["kb"] = jbytes(&kb);
+                call(|| -> Result<_, csl::JsError> { let k = xprv(k); let lk = csl::LegacyDaedalusPrivateKey::from_bytes(&kb)?; let addr = csl::ByronAddress::icarus_from_key(&k.to_public(), 764824073);
                     let w = csl::make_daedalus_bootstrap_witness(&csl::TransactionHash::from_bytes(h.clone())?, &addr, &lk); let pk = w.vkey().public_key();
                     Ok((pk.as_bytes(), w.signature().to_bytes(), w.chain_code(), lk.as_bytes(), pk.verify(&h, &w.signature()), pk.verify(&h2, &w.signature()))) })
                 .to_json(|(vk, sg, cc, lb, v1, v2)| obj(vec![("vkey", jbytes(&vk)), ("sig", jbytes(&sg)), ("cc", jbytes(&cc)), ("legacy_bytes", jbytes(&lb)), ("verifies", json!(v1)), ("verifies_other_hash", json!(v2))])) }
@@ -145,6 +150,7 @@ pub fn gen(rng: &mut Rng, _i: usize) -> J {
             ops.push(json!({"op": "witness", "a": sk, "h": jbytes(&h)}));
             ops.push(json!({"op": "icarus", "a": leaf, "h": jbytes(&h)}));
             if rng.below(2) == 0 { ops.push(json!({"op": "daedalus", "a": leaf, "h": jbytes(&h)})); }
+            if rng.below(3) == 0 { ops.push(json!({"op": "daedalus", "a": leaf, "h": jbytes(&h), "mutate": {"byte": *rng.pick(&[0u64, 0, 31, 31, 32, 63, 64, 95]), "xor": 1u64 << rng.below(8)}})); }
             for (reg, forms) in [(leaf, vec!["bytes", "hex", "bech32", "xprv128"]), (xp, vec!["bytes", "hex", "bech32"]), (sk, vec!["bytes", "hex", "bech32"]), (pk, vec!["bytes", "hex", "bech32"]), (sg, vec!["bytes", "hex", "bech32"])] {
                 for f in forms { if rng.below(3) == 0 { ops.push(json!({"op": "codec", "a": reg, "form": f})); } }
             }
@@ -171,13 +177,15 @@ pub fn gen(rng: &mut Rng, _i: usize) -> J {
             ops.push(json!({"op": "encrypt", "pw": jbytes(&pw), "salt": jbytes(&salt), "nonce": jbytes(&nonce), "data": jbytes(&data)}));
             ops.push(json!({"op": "decrypt", "a": 1, "pw": jbytes(&pw)}));
             let total = 60 + data.len() as u64;
-            match rng.below(5) {
+            for _ in 0..1 + rng.below(3) { match rng.below(8) {
                 0 => ops.push(json!({"op": "decrypt", "a": 1, "pw": jbytes(&pw), "sha512_of_pw": true})),
                 1 => ops.push(json!({"op": "decrypt", "a": 1, "pw": jbytes(&pw), "append0": 1 + rng.below(2)})),
                 2 => { let mut p2 = pw.clone(); let l = p2.len(); p2[l - 1] ^= 1; ops.push(json!({"op": "decrypt", "a": 1, "pw": jbytes(&p2)})) }
+                5 => { let l = pw.len(); ops.push(json!({"op": "decrypt", "a": 1, "pw": jbytes(&pw[..l - 1 - (rng.below(l as u64) as usize).min(l - 1)])})) }
+                6 => { let mut p2 = pw.clone(); p2.push(1 + rng.below(255) as u8); ops.push(json!({"op": "decrypt", "a": 1, "pw": jbytes(&p2)})) }
                 3 => ops.push(json!({"op": "decrypt", "a": 1, "pw": jbytes(&pw), "flip": rng.below(total)})),
                 _ => ops.push(json!({"op": "decrypt", "a": 1, "pw": jbytes(&pw), "cut": 1 + rng.below(3)})),
-            }
+            } }
         }
     }
     json!({"ops": ops})
